@@ -127,7 +127,8 @@ type testEnv struct {
 	lastPanic     string
 	rec           *recorder
 	emitCookieOps bool              // emit a `mkcookie` model comparison for every Set-Cookie (suite cookieattrs)
-	redisFault    map[string]string // upper-case command → "before" | "after" (one shot)
+	redisMu       sync.Mutex        // guards redisFault: the hooks run in miniredis's connection goroutines
+	redisFault    map[string]string // upper-case command → "before" | "after" (one shot); set with setRedisFault
 	redisOnCmd    sync.Map          // upper-case command → func(*server.Peer, []string) bool, called when the command arrives (true: the hook has answered it)
 	redisOutage   atomic.Bool       // while set EVERY Redis command is answered with an error (restart / LOADING / network outage)
 	stopClock     chan struct{}
@@ -366,18 +367,17 @@ func newEnv(c *suiteCtx, cfg proxyCfg) (*testEnv, error) {
 					return true
 				}
 			}
+			e.redisMu.Lock()
 			kind, ok := e.redisFault[strings.ToUpper(cmd)]
+			if ok && kind != "always" && kind != "drop-always" { // "always": the command keeps failing for the whole request (e.g. a read-only replica refusing writes)
+				delete(e.redisFault, strings.ToUpper(cmd))
+			}
+			e.redisMu.Unlock()
 			if !ok {
 				return false
 			}
-			if kind != "always" { // "always": the command keeps failing for the whole request (e.g. a read-only replica refusing writes)
-				delete(e.redisFault, strings.ToUpper(cmd))
-			}
 			if strings.HasPrefix(kind, "drop") {
 				// the connection is closed without a reply (a TCP proxy whose backend is gone, a fail-over): "drop" once, "drop-always"
-				if kind == "drop-always" {
-					e.redisFault[strings.ToUpper(cmd)] = kind
-				}
 				p.Close()
 				return true
 			}
@@ -643,6 +643,18 @@ func (e *testEnv) varyDeployment(o *options.Options) {
 	o.Logging.SilencePing = pick(2) == 1
 	e.c.count("deploy:prefix:" + o.ProxyPrefix)
 	e.c.count("deploy:cookie-name:" + o.Cookie.Name)
+}
+
+func (e *testEnv) setRedisFault(m map[string]string) {
+	e.redisMu.Lock()
+	e.redisFault = m
+	e.redisMu.Unlock()
+}
+
+func (e *testEnv) redisFaultsLeft() int {
+	e.redisMu.Lock()
+	defer e.redisMu.Unlock()
+	return len(e.redisFault)
 }
 
 // serving: validation.Validate and NewOAuthProxy configure PACKAGE-LEVEL state (the logger's switches, templates and outputs) — a
